@@ -1,3 +1,4 @@
+@frequency.setter
 def spec(self, value):
     if self.__compensate_freq:
         _ = argtest.lt('frequency * refrac', value * self.refrac, 1000, float)
